@@ -22,7 +22,7 @@ LEVEL = "exploration"
 RULE = ("scenario = 2..4 concurrent send_message callers on one stream pair (staggered starts, own timeouts) + peer answers in a "
         "generated permutation/timing + unrelated notifications/foreign responses; non-trivial = an answer was delivered while at "
         "least two callers were waiting")
-PROBES = ["stdio_pair_on_fake_process", "int_and_digit_string_twin_ids", "answer_consumed_by_other_waiter", "answer_on_poll_edge", "answers_out_of_call_order", "answer_at_deadline"]
+PROBES = ["in_phase_in_order_regime", "token_holder_next_to_plain_waiter", "all_answers_in_one_flush", "stdio_pair_on_fake_process", "int_and_digit_string_twin_ids", "answer_consumed_by_other_waiter", "answer_on_poll_edge", "answers_out_of_call_order", "answer_at_deadline"]
 TIERS = {"quick": {"runs": 25000, "wall": 45.0}, "thorough": {"runs": 2000000, "wall": 560.0}}
 ASSUMPTIONS = ["an answer is only sent after the peer has seen the request (a server cannot answer an id it has not received)"]
 SHRINK_LISTS = ["events"]
@@ -39,6 +39,7 @@ def generate(rng: random.Random, tier: str) -> dict:
             "timeout": rng.choice(TIMEOUTS),
             "mid": rng.choice([None, f"c{i}", f"{i + 1}", f"req-{i}", i + 1, 7, "7", 0, ""]),
             "method": rng.choice(["tools/list", "ping", "x/y"]),
+            "token": rng.random() < 0.3,   # passes a cancellation token (never fired here)
         })
     # ids must be distinct as JSON values (7 and "7" are distinct ids)
     seen = set()
@@ -69,16 +70,45 @@ def generate(rng: random.Random, tier: str) -> dict:
         events.append({"t": rng.randrange(0, 3000), "tie": rng.choice([0, 2]), "hops": 0,
                        "kind": rng.choice(["notification", "foreign_response"])})
     events.sort(key=lambda e: e["t"])
+    regime = None
+    r = rng.random()
+    if n >= 2 and r < 0.2:
+        # callers started together (same poll phase), the server answers each exactly once in request order, no other traffic:
+        # the regime in which every caller must get its own answer
+        regime = "inphase"
+        s0 = rng.choice([0, 0, 5, 300])
+        for c in callers:
+            c["start"] = s0
+        dl = s0 + int(min(c["timeout"] for c in callers) / TICK)
+        times = sorted(rng.choice([rng.randrange(s0 + 1, dl), s0 + 512 * rng.randrange(0, 4) + rng.choice([-1, 0, 1, 7])]) for _ in range(n))
+        times = [min(max(s0 + 1, t), dl - 1) for t in times]
+        events = [{"t": times[i], "tie": 0, "hops": 0, "kind": "answer", "caller": i, "err": rng.random() < 0.2} for i in range(n)]
+    elif n >= 2 and r < 0.35:
+        # the server flushes all its answers in one write (any order): they reach the client in one read
+        regime = "one_flush"
+        s_max = max(c["start"] for c in callers)
+        dl = min(c["start"] + int(c["timeout"] / TICK) for c in callers)
+        if s_max + 2 < dl:
+            t = rng.randrange(s_max + 1, dl)
+            order2 = list(range(n)); rng.shuffle(order2)
+            events = [{"t": t, "tie": 0, "hops": 0, "kind": "answer", "caller": i, "err": False} for i in order2]
+        else:
+            regime = None
     for k, e in enumerate(events):
         e["m"] = f"mk{k}"
     return {"v": 1, "uuid_seed": rng.getrandbits(40), "mode": rng.choice(["parse_message", "model_validate"]),
-            "carrier": rng.choice(["raw", "raw", "stdio"]),
+            "carrier": rng.choice(["raw", "raw", "stdio"]), "regime": regime, "coalesce": rng.random() < 0.6,
             "callers": callers, "events": events}
 
 
 def simplify(scn):
+    if scn.get("regime"):
+        return  # the regime is a property of the whole scenario: editing events/starts would leave it
     if scn.get("carrier") == "stdio":
         c = copy.deepcopy(scn); c["carrier"] = "raw"; yield c
+    for i, cl in enumerate(scn["callers"]):
+        if cl.get("token"):
+            c = copy.deepcopy(scn); c["callers"][i]["token"] = False; yield c
     for i, ev in enumerate(scn["events"]):
         if ev.get("hops"):
             c = copy.deepcopy(scn); c["events"][i]["hops"] = 0; yield c
@@ -118,6 +148,7 @@ def execute(scn: dict) -> dict:
                 stack.enter_context(patched((anyio, "open_process", factory)))
                 r, w = await stack.enter_async_context(stdio.stdio_client(StdioParameters(command="sim-child", args=[])))
                 child = factory.children[0]
+                child.coalesce_reads = bool(scn.get("coalesce"))
 
                 class _ChildSend:  # the "server side" of the pair is the fake child's stdout
                     def send_nowait(self, obj):
@@ -178,6 +209,8 @@ def execute(scn: dict) -> dict:
                 kw = {"timeout": c["timeout"]}
                 if c["mid"] is not None:
                     kw["message_id"] = c["mid"]
+                if c.get("token"):
+                    kw["cancellation_token"] = sm.CancellationToken()
                 res = await sm.send_message(rr, ws, c["method"], None, **kw)
                 st["out"][i] = ("return", res)
             except BaseException as e:  # noqa
@@ -272,7 +305,9 @@ def execute(scn: dict) -> dict:
         # (b) lost response
         if first is not None and first["t"] < deadline and actual[0] == "timeout":
             who = consumer.get(id(first["obj"]))
-            if who is None:
+            if scn.get("regime") == "inphase":
+                cause = "in-phase-in-order:" + ("never-consumed" if who is None else ("self" if who == f"caller-{i}" else "other-waiter"))
+            elif who is None:
                 cause = "never-consumed"
             elif who == f"caller-{i}":
                 cause = "consumed-by-self-not-returned"
@@ -288,6 +323,12 @@ def execute(scn: dict) -> dict:
         probe("answers_out_of_call_order")
     if scn.get("carrier") == "stdio":
         probe("stdio_pair_on_fake_process")
+    if scn.get("regime") == "inphase":
+        probe("in_phase_in_order_regime")
+        if any(c.get("token") for c in callers) and not all(c.get("token") for c in callers):
+            probe("token_holder_next_to_plain_waiter")
+    if scn.get("regime") == "one_flush":
+        probe("all_answers_in_one_flush")
     mids = [c["mid"] for c in callers if c["mid"] is not None]
     if any(isinstance(a, int) and str(a) in [b for b in mids if isinstance(b, str)] for a in mids):
         probe("int_and_digit_string_twin_ids")
